@@ -177,3 +177,16 @@ Definition t_filter (k : tkind) (p : pspec) (inp : bytes) (t : tstate) : bytes :
               end
   | _ => masked t_empty
   end.
+
+(* the same filters applied to a String field that carries track data (fields 35 / 36 / 45 of the shipped specifications):
+   newTrackData packs the String field, gives a new track object the field's spec and unpacks the bytes into it *)
+Definition s_track_filter (k : tkind) (p : pspec) (inp : bytes) (v : bytes) : bytes :=
+  let masked tr := t_render k {| tk_fixed := tk_fixed tr; tk_fc := tk_fc tr; tk_pan := pan_filter (tk_pan tr); tk_sep := tk_sep tr;
+                                 tk_name := tk_name tr; tk_exp := tk_exp tr; tk_svc := tk_svc tr; tk_dd := tk_dd tr |} in
+  match prim_pack p (SString v) with
+  | Ok raw => match t_unpack k p t_empty raw with
+              | (tr, Ok _) => masked tr
+              | _ => pan_filter inp
+              end
+  | _ => masked t_empty
+  end.
